@@ -473,13 +473,15 @@ TExtra ==
   /\ Extra /\ l' = l + 1
   /\ UNCHANGED <<cvars, nodeOf, saved, everRAA, projB>>
   /\ LET r == Rec[l] IN
+     \* (the first write of a new monitor is complete when ITS id is reported complete -- not when a later update of
+     \*  the same channel, handed over while it was in flight, is: completions arrive in any order)
      /\ fw' = IF r.ev = "persist" /\ r.kind = "new" /\ r.status = "inprogress"
-               THEN [fw EXCEPT !.newInfl = @ \cup {<<r.node, r.chan>>}]
-               ELSE IF r.ev = "complete" THEN [fw EXCEPT !.newInfl = @ \ {<<r.node, r.chan>>}]
+               THEN [fw EXCEPT !.newInfl = @ \cup {<<r.node, r.chan, r.id>>}]
+               ELSE IF r.ev = "complete" THEN [fw EXCEPT !.newInfl = @ \ {<<r.node, r.chan, r.id>>}]
                ELSE fw
      \* (funding_signed is deliberately sent at once by the acceptor -- it has nothing at stake yet --
      \* and is not in the property's list; channel_ready and the funding broadcast are)
-     /\ (r.ev = "msg" /\ r.kind = "channel_ready") => G9(<<r.from, r.chan>> \notin fw.newInfl)
+     /\ (r.ev = "msg" /\ r.kind = "channel_ready") => G9(\A p \in fw.newInfl : ~(p[1] = r.from /\ p[2] = r.chan))
      \* ... and once it is, exactly what was held comes out: at the end of a wound-down run (every write
      \* completed, peers connected, everything delivered) a channel whose funding is buried is ready
      /\ (r.ev = "proj" /\ r.final /\ r.confs_req > 0 /\ r.confs >= r.confs_req) => G9(r.ready)
